@@ -6,7 +6,9 @@
 //!            "entry": "rt"|"rt_as_emitter"|"core"|"macro"|"macro_evt"|"direct"
 //!                   | "macro_lvl" (info!) | "evt_macro" (emit!(evt: evt!(extent: ..)))
 //!                   | "span_evt" | "metric_evt" (Span / Metric with an explicit extent through Runtime::emit)
-//!                   | "span_guard" | "span_macro" (SpanGuard / new_span!: extent = clock .. clock2)},
+//!                   | "span_guard" | "span_macro" (SpanGuard / new_span!: extent = clock .. clock2)
+//!                   | "rt_with" | "rt_map" (the event rebuilt with with_* / map_props before Runtime::emit),
+//!            "env": the form of the runtime's ctxt / clock / rng (plain, ref, box, arc, opt, erased, assert, optnone, empty)},
 //!    "expect": {"ev": {"props": [{k,v}], "ext": {kind,a,b}}, "deliver": [{"id": leaf id, "ev": event it must receive}],
 //!               "leaves": [leaf id],
 //!               "eff": [filter leaf id, in order], "wraps": [filter leaf id], "bypass": bool},
@@ -354,7 +356,7 @@ fn dyn_emitter(t: &Value, log: &Log) -> DE {
 }
 
 /// The wrapping given by value, borrowed (`Wrapping for &T`) or type-erased
-/// (`&(dyn ErasedWrapping + Send + Sync)`).
+/// (`&(dyn ErasedWrapping + Send + Sync)`, `&dyn ErasedWrapping`).
 fn with_wrapping<W: emitter::wrapping::Wrapping + Send + Sync + 'static>(inner: DE, w: W, form: &str) -> DE {
     match form {
         "owned" => Box::new(emitter::wrap(inner, w)),
@@ -366,7 +368,26 @@ fn with_wrapping<W: emitter::wrapping::Wrapping + Send + Sync + 'static>(inner: 
             let r: &'static (dyn emitter::wrapping::ErasedWrapping + Send + Sync) = Box::leak(Box::new(w));
             Box::new(inner.wrap_emitter(r))
         }
+        // without the auto traits: `&dyn ErasedWrapping`
+        "erased_local" => {
+            let r: &'static dyn emitter::wrapping::ErasedWrapping = Box::leak(Box::new(w));
+            Box::new(ForceSendSync(inner.wrap_emitter(r)))
+        }
         f => tool_error(&format!("wrapping form {f}")),
+    }
+}
+
+/// The harness is single-threaded; this only lets a value without the auto traits sit in a
+/// tree whose nodes are `Box<dyn ErasedEmitter + Send + Sync>`.
+struct ForceSendSync<T>(T);
+unsafe impl<T> Send for ForceSendSync<T> {}
+unsafe impl<T> Sync for ForceSendSync<T> {}
+impl<T: Emitter> Emitter for ForceSendSync<T> {
+    fn emit<E: ToEvent>(&self, evt: E) {
+        self.0.emit(evt)
+    }
+    fn blocking_flush(&self, timeout: Duration) -> bool {
+        self.0.blocking_flush(timeout)
     }
 }
 
@@ -581,13 +602,88 @@ fn shape_of(t: &Value) -> String {
 }
 
 // ---- running one configuration -----------------------------------------------------------
-/// Drive the entry point of the configuration with the given (real) components.
+/// The runtime's ambient context and clock as the configuration describes them.
+fn plain_env(cfg: &Value, log: &Log) -> (FixedCtxt, ScriptClock) {
+    let mut clock = ScriptClock::new(match cfg["clock"].as_u64().unwrap() { 0 => None, t => Some(t) }, 0, log);
+    clock.later = cfg["clock2"].as_u64().filter(|c| *c != 0);
+    (FixedCtxt { props: pairs(&cfg["ambient"]), id: 0, log: log.clone() }, clock)
+}
+
+/// Run `$body` with the context, clock and rng in the form the configuration names (`env`).
+macro_rules! with_env {
+    ($cfg:expr, $log:expr, |$c:ident, $t:ident, $r:ident| $body:expr) => {{
+        let (c0, t0) = plain_env($cfg, $log);
+        let absent = || {
+            if $cfg["clock"].as_u64() != Some(0) || !$cfg["ambient"].as_array().unwrap().is_empty() {
+                tool_error("env optnone / empty with a clock or ambient properties");
+            }
+        };
+        match $cfg["env"].as_str().unwrap_or("plain") {
+            "plain" => {
+                let ($c, $t, $r) = (c0, t0, emit::Empty);
+                $body
+            }
+            "ref" => {
+                let ($c, $t, $r) = (&c0, &t0, &emit::Empty);
+                $body
+            }
+            "box" => {
+                let ($c, $t, $r) = (Box::new(c0), Box::new(t0), Box::new(emit::Empty));
+                $body
+            }
+            "arc" => {
+                let ($c, $t, $r) = (Arc::new(c0), Arc::new(t0), Arc::new(emit::Empty));
+                $body
+            }
+            "opt" => {
+                let ($c, $t, $r) = (Some(c0), Some(t0), Some(emit::Empty));
+                $body
+            }
+            "erased" => {
+                let $c: Box<dyn emit::ctxt::ErasedCtxt + Send + Sync> = Box::new(c0);
+                let $t: Box<dyn emit::clock::ErasedClock + Send + Sync> = Box::new(t0);
+                let $r: Box<dyn emit::rng::ErasedRng + Send + Sync> = Box::new(emit::Empty);
+                $body
+            }
+            "assert" => {
+                let ($c, $t, $r) =
+                    (emit::runtime::AssertInternal(c0), emit::runtime::AssertInternal(t0), emit::runtime::AssertInternal(emit::Empty));
+                $body
+            }
+            "optnone" => {
+                absent();
+                let ($c, $t, $r) = (None::<FixedCtxt>, None::<ScriptClock>, None::<emit::Empty>);
+                $body
+            }
+            "empty" => {
+                absent();
+                let ($c, $t, $r) = (emit::Empty, emit::Empty, emit::Empty);
+                $body
+            }
+            e => tool_error(&format!("env form {e}")),
+        }
+    }};
+}
+
+/// Drive the entry point of the configuration with the given (real) components; context and
+/// clock by value (the stamped generic trees use only this form).
 fn run_entry<F: Filter, CF: Filter, E: Emitter>(cfg: &Value, rtf: F, csf: Option<CF>, em: E, log: &Log) -> Vec<Ent> {
+    let (ctxt, clock) = plain_env(cfg, log);
+    run_entry_in(cfg, rtf, csf, em, ctxt, clock, log)
+}
+
+fn run_entry_in<F: Filter, CF: Filter, E: Emitter, C: emit::Ctxt, T: emit::Clock>(
+    cfg: &Value,
+    rtf: F,
+    csf: Option<CF>,
+    em: E,
+    ctxt: C,
+    clock: T,
+    log: &Log,
+) -> Vec<Ent> {
     let own = pairs(&cfg["own"]);
     let own: &[(&'static str, i64)] = &own;
     let ext = extent_of(&cfg["extent"]);
-    let clock = ScriptClock::new(match cfg["clock"].as_u64().unwrap() { 0 => None, t => Some(t) }, 0, log);
-    let ctxt = FixedCtxt { props: pairs(&cfg["ambient"]), id: 0, log: log.clone() };
     let evt = Event::new(emit::Path::new_raw("m"), emit::Template::literal("t"), ext.clone(), own);
     let entry = cfg["entry"].as_str().unwrap();
     log.push(Ent::Flush(em.blocking_flush(Duration::from_millis(2))));
@@ -612,27 +708,46 @@ fn run_entry<F: Filter, CF: Filter, E: Emitter>(cfg: &Value, rtf: F, csf: Option
 
 /// The entry points that build the event themselves or through other macros; exercised with
 /// type-erased components only (keeps the stamped generic instantiations small).
-const EXTRA_ENTRIES: [&str; 7] = ["rt_with", "macro_lvl", "evt_macro", "span_evt", "metric_evt", "span_guard", "span_macro"];
+const EXTRA_ENTRIES: [&str; 8] = ["rt_with", "rt_map", "macro_lvl", "evt_macro", "span_evt", "metric_evt", "span_guard", "span_macro"];
 
-fn run_entry_extra(cfg: &Value, rtf: DF, csf: Option<DF>, em: DE, log: &Log) -> Vec<Ent> {
+fn run_entry_extra<C: emit::Ctxt, T: emit::Clock, R: emit::Rng>(
+    cfg: &Value,
+    rtf: DF,
+    csf: Option<DF>,
+    em: DE,
+    ctxt: C,
+    clock: T,
+    rng: R,
+    log: &Log,
+) -> Vec<Ent> {
     let own = pairs(&cfg["own"]);
     let own: &[(&'static str, i64)] = &own;
     let ext = extent_of(&cfg["extent"]);
-    let mut clock = ScriptClock::new(match cfg["clock"].as_u64().unwrap() { 0 => None, t => Some(t) }, 0, log);
-    clock.later = cfg["clock2"].as_u64().filter(|c| *c != 0);
-    let ctxt = FixedCtxt { props: pairs(&cfg["ambient"]), id: 0, log: log.clone() };
     let entry = cfg["entry"].as_str().unwrap();
-    let rt = Runtime::build(em, rtf, ctxt, clock, emit::Empty);
+    let rt = Runtime::build(em, rtf, ctxt, clock, rng);
     // (through `Emitter for Runtime`)
     log.push(Ent::Flush(Emitter::blocking_flush(&rt, Duration::from_millis(2))));
     match (entry, csf) {
         // the event put together with the builder methods
-        ("rt_with", _) => rt.emit(
-            Event::new(emit::Path::new_raw("x"), emit::Template::literal("t"), emit::Empty, emit::Empty)
+        // (starting from another module, another extent and other properties: each builder
+        // must replace what was there, `with_extent(None)` included)
+        ("rt_with", _) => {
+            let evt = Event::new(emit::Path::new_raw("x"), emit::Template::literal("t"), ts(1)..ts(2), ("dropped", 1i64))
                 .with_mdl(emit::Path::new_raw("m"))
                 .with_extent(ext)
-                .with_props(own),
-        ),
+                .with_props(own);
+            if *evt.mdl() != emit::Path::new_raw("m") {
+                panic!("Event::with_mdl: the event still says {}", evt.mdl());
+            }
+            rt.emit(evt)
+        }
+        // the properties put together with map_props; the event passed borrowed and type-erased
+        ("rt_map", _) => {
+            let (head, tail) = own.split_at(own.len().min(1));
+            let evt = Event::new(emit::Path::new_raw("m"), emit::Template::literal("t"), ext, head).map_props(|h| h.and_props(tail));
+            let erased = evt.erase();
+            rt.emit(&erased);
+        }
         ("macro_lvl", None) => emit::info!(rt, extent: ext, props: own, "t"),
         ("macro_lvl", Some(cf)) => emit::info!(rt, when: cf, extent: ext, props: own, "t"),
         ("evt_macro", None) => {
@@ -686,10 +801,11 @@ fn csf_of(cfg: &Value, log: &Log) -> Option<DF> {
 
 fn run_dynamic(cfg: &Value) -> Vec<Ent> {
     let log = Log::default();
+    let (rtf, csf, em) = (dyn_filter(&cfg["rtf"], &log), csf_of(cfg, &log), dyn_emitter(&cfg["em"], &log));
     if EXTRA_ENTRIES.contains(&cfg["entry"].as_str().unwrap()) {
-        return run_entry_extra(cfg, dyn_filter(&cfg["rtf"], &log), csf_of(cfg, &log), dyn_emitter(&cfg["em"], &log), &log);
+        return with_env!(cfg, &log, |ctxt, clock, rng| run_entry_extra(cfg, rtf, csf, em, ctxt, clock, rng, &log));
     }
-    run_entry(cfg, dyn_filter(&cfg["rtf"], &log), csf_of(cfg, &log), dyn_emitter(&cfg["em"], &log), &log)
+    with_env!(cfg, &log, |ctxt, clock, _rng| run_entry_in(cfg, rtf, csf, em, ctxt, clock, &log))
 }
 
 type Runner = fn(&Value) -> Vec<Ent>;
@@ -924,6 +1040,17 @@ fn judge(log: &[Ent], case: &Value, checks: &mut u64) -> Vec<Value> {
     bad
 }
 
+fn count_wrapping_forms(t: &Value, seen: &mut BTreeMap<String, u64>) {
+    if let Some(wf) = t.get("wf").and_then(|w| w.as_str()) {
+        *seen.entry(format!("wf:{}:{wf}", t["op"].as_str().unwrap())).or_default() += 1;
+    }
+    for f in ["t", "l", "r"] {
+        if t.get(f).map_or(false, |c| c.is_object()) {
+            count_wrapping_forms(&t[f], seen);
+        }
+    }
+}
+
 fn main() {
     let args: Vec<String> = std::env::args().collect();
     if args.len() < 3 {
@@ -944,9 +1071,12 @@ fn main() {
                 *seen.entry(format!("{pre}{w}")).or_default() += 1;
             }
         }
+        *seen.entry(format!("env:{}", cfg["env"].as_str().unwrap_or("plain"))).or_default() += 1;
+        count_wrapping_forms(&cfg["em"], &mut seen);
         let dynamic = catch(|| run_dynamic(cfg));
         let mut runs: Vec<(String, Result<Vec<Ent>, String>)> = vec![("erased".into(), dynamic)];
-        let extra = EXTRA_ENTRIES.contains(&cfg["entry"].as_str().unwrap());
+        // (the stamped generic trees hold context and clock by value: nothing new to run for the other forms)
+        let extra = EXTRA_ENTRIES.contains(&cfg["entry"].as_str().unwrap()) || cfg["env"].as_str().map_or(false, |e| e != "plain");
         if extra {
             // erased components only
         } else if let Some(run) = reg.rtf.get(&shape_of(&cfg["rtf"])) {
